@@ -28,7 +28,6 @@ for fn, params, spec in [
     ('match_defined', dict(self=CSSMATCH, el=NODE), 'sem_defined(self, el)'),
     ('match_root', dict(self=CSSMATCH, el=NODE), 'sem_root(self, el)'),
     ('match_placeholder_shown', dict(self=CSSMATCH, el=NODE), 'sem_placeholder(self, el)'),
-    ('match_nth', dict(self=CSSMATCH, el=NODE, nth=TSeq(SELNTH)), 'sem_nth(self, self.namespaces, self.iframe_restrict, el, nth)'),
     ('match_empty', dict(self=CSSMATCH, el=NODE), 'sem_empty(self, el)'),
     ('match_id', dict(self=CSSMATCH, el=NODE, ids=TSeq(STR)), 'sem_ids(self, el, ids)'),
     ('match_classes', dict(self=CSSMATCH, el=NODE, classes=TSeq(STR)), 'sem_classes(self, el, classes)'),
@@ -148,3 +147,24 @@ contract(M + '__init__', params=dict(self=CSSMATCH, selectors=SELLIST, scope=NOD
                         decreases='0 if parent is None else depth(parent) + 1'),
                 2: dict(var='child', invariant=['root is None', '_i2 == 0'])},
          properties=['C03', 'C11'])
+
+contract('soupsieve.css_match._DocumentNav.create_fake_parent', params=dict(el=NODE), returns=NODE,
+         ensures=['result is not None', 'result == fake_parent(el)'], opaque=True, properties=['C02'])
+contract('soupsieve.css_match._DocumentNav.get_children', params=dict(self=CSSMATCH, el=NODE, start=TOpt(INT), reverse=BOOL, tags=BOOL, no_iframe=BOOL),
+         returns=SEQ_NODE, kind='generator', ensures=['result == kids_spec(self, el, start, reverse, tags, no_iframe)'], opaque=True,
+         properties=['C02', 'C01'])
+contract(M + 'match_nth_tag_type', params=dict(self=CSSMATCH, el=NODE, child=NODE), returns=BOOL, requires=['el is not None', 'child is not None'],
+         ensures=['result == same_type(self, el, child)'], properties=['C02'])
+contract(M + 'match_nth', params=dict(self=CSSMATCH, el=NODE, nth=TSeq(SELNTH)), returns=BOOL,
+         requires=['el is not None', 'wf_nths(nth, 0)'] + WF,
+         ensures=[f'result == sem_nth({CTX}, el, nth)'],
+         locals=dict(parent=NODE),
+         loops={1: dict(var='n', invariant=['matched', f'all_nth({CTX}, el, nth, _i1) == all_nth({CTX}, el, nth, 0)', 'wf_nths(nth, _i1)']),
+                2: dict(var='child', assume_elem=['child is not None and is_tag(child)'],
+                        invariant=['relative_index >= 0', '_seq2 == nth_sibs(self, el, n.last)',
+                                   f'relative_index + cnt_from({CTX}, el, n, _seq2, _i2) == cnt_from({CTX}, el, n, _seq2, 0)'])},
+         properties=['C02', 'C01'])
+contract('lemma.C02_anb_closed_sound', params=dict(a=INT, b=INT, q=INT), requires=['anb(a, b, True, q)'],
+         ensures=['implies(a == 0, b == q)', 'implies(a != 0, a * ((q - b) // a) + b == q and (q - b) // a >= 0)'], properties=['C02'])
+contract('lemma.C02_anb_closed_complete', params=dict(a=INT, b=INT, q=INT, k=INT), requires=['k >= 0', 'a * k + b == q'],
+         ensures=['anb(a, b, True, q)'], properties=['C02'])
